@@ -11,11 +11,12 @@ Supported subset (anything else fails loudly; the check then reports that the ti
               | call of another translated function | one whitelisted attribute (air.vonkarman_constant)
 """
 import ast
+import os
 import sys
 from fractions import Fraction
 from pathlib import Path
 
-REPO = Path("/repo/src/ocean_science_utilities")
+REPO = Path(os.environ.get("OSU_REPO", "/repo")) / "src/ocean_science_utilities"
 
 # (file, function, argument names in Lean order, extra attribute parameters)
 TARGETS = [
